@@ -32,6 +32,7 @@ import (
 	"crypto/sha256"
 	"encoding/hex"
 	"fmt"
+	"github.com/muktihari/fit/encoder"
 	"hash"
 	"io"
 	"math"
@@ -78,6 +79,7 @@ type c15Cfg struct {
 	mid   []*c15Fixture // 8 KB .. 200 KB
 	large []*c15Fixture // 200 KB .. 1 MB (thorough only)
 	huge  []*c15Fixture // > 1 MB (thorough only)
+	dev   *c15Fixture   // generated: developer fields on every record
 
 	midBias bool // see pick
 
@@ -163,6 +165,18 @@ func (c *c15Cfg) loadFixtures() {
 			c.large = append(c.large, f)
 		default:
 			c.huge = append(c.huge, f)
+		}
+	}
+	// a generated file in which every record carries developer fields (the decoder keeps those in a scratch array of its own
+	// between messages: whoever receives them must not go on reading that array)
+	{
+		gr := newRng(0xC15DE7)
+		msgs := gr.genFit(mesgGenCfg{wellFormed: true, maxFields: 6, tsMode: 0}, 40, true)
+		var buf bytes.Buffer
+		if err := encoder.New(&buf, encoder.WithProtocolVersion(proto.V2)).Encode(&proto.FIT{Messages: msgs}); err == nil {
+			c.dev = &c15Fixture{name: "generated/developer_fields.fit", data: buf.Bytes()}
+			c.all = append(c.all, c.dev)
+			c.tiny = append(c.tiny, c.dev)
 		}
 	}
 	if len(c.all) == 0 {
